@@ -211,18 +211,18 @@ func c17Geom(g orb.Geometry) string {
 }
 
 type c17Feat struct {
-	kind            string
-	id              int
-	idSet           bool
-	idStr           string
-	geom            orb.Geometry
-	tags            map[string]string
-	tainted         bool
-	rels            []string // id:role
-	hasRels         bool
-	meta            []string
-	hasMeta         bool
-	rendered        string
+	kind     string
+	id       int
+	idSet    bool
+	idStr    string
+	geom     orb.Geometry
+	tags     map[string]string
+	tainted  bool
+	rels     []string // id:role
+	hasRels  bool
+	meta     []string
+	hasMeta  bool
+	rendered string
 }
 
 func c17Decode(fc *geojson.FeatureCollection) []c17Feat {
